@@ -215,6 +215,10 @@ where
 
     // Keep on running forever until we receive the instruction to stop.
     while keep_running {
+        #[cfg(feature = "verif-hooks")]
+        if crate::verif_failpoint::hit("writer.recv") {
+            return;
+        }
         match ctx.mbox.recv() {
             Ok(Message::ClockErrorBoundData((tracking, phc_error_bound, as_of))) => {
                 // TODO use phc_error_bound here
@@ -237,11 +241,35 @@ where
             Ok(msg) => info!("Received message without handler {:?}", msg),
             Err(e) => error!("Error reading from MPSC channel: {:?}", e),
         }
+        #[cfg(feature = "verif-hooks")]
+        if crate::verif_failpoint::hit("writer.done") {
+            return;
+        }
+    }
+}
+
+/// Public wrappers around the private items of this module (verification only).
+#[cfg(feature = "verif-hooks")]
+pub mod verif_api {
+    use super::*;
+
+    /// `process_messages()` over a fresh ShmUpdater writing to `writer`.
+    pub fn process_messages_with<W: ShmWrite>(ctx: Context, writer: W, max_drift_ppb: u32) {
+        process_messages(ctx, ShmUpdater::new(writer, max_drift_ppb))
+    }
+
+    /// `extract_bound_from_tracking()`.
+    pub fn extract_bound(tracking: Tracking) -> (i64, ChronyClockStatus) {
+        extract_bound_from_tracking(tracking)
     }
 }
 
 /// Entry point to this thread.
 pub fn run(ctx: Context, max_drift_ppb: u32) {
+    #[cfg(feature = "verif-hooks")]
+    if crate::verif_failpoint::hit("writer.start") {
+        return;
+    }
     info!("Starting shared memory writer thread");
     // Create a writer to update the clock error bound shared memory segment
     let writer = match ShmWriter::new(Path::new(CLOCKBOUND_SHM_DEFAULT_PATH)) {
@@ -258,6 +286,10 @@ pub fn run(ctx: Context, max_drift_ppb: u32) {
         }
     };
 
+    #[cfg(feature = "verif-hooks")]
+    if crate::verif_failpoint::hit("writer.new") {
+        return;
+    }
     // Pack the writer into the updater structure.
     let updater = ShmUpdater::new(writer, max_drift_ppb);
     process_messages(ctx, updater)
